@@ -45,8 +45,8 @@ META = {
     "ready": True,
     "level": "model_checking",
     "technique": "TLA+ state machine of thunk-block assignment exhaustively checked by TLC over scaled object sequences, every run replayed into the real assign_thunk_blocks in-process; TLA+ model of the non-primary executable parts (size, part id below/above, placed before/after the primary part) with the estimate-based thunk decision checked against true layout distance, every size vector replayed into the real compute_non_primary_text_size and output order; end-to-end AArch64 links with >128 MiB paddings decoded statically (B/BL -> thunk -> target)",
-    "level_text": "Thunks.tla models assign_thunk_blocks step by step; TLC explores every sequence of up to 5 (quick) / 6-7 (thorough) objects over sizes 1..5 with a scaled range and checks block structure, that far pairs always get a thunk symbol, and reachability of the block from every site when objects are no longer than the slack; every explored run (thousands) is replayed into the real function with the same numbers and must give the identical (block, owner) assignment. ThunksParts.tla models the executable image as four classes of non-primary parts (.plt.got; .init/.fini/custom-named; over-aligned .text; low-alignment .text) with sizes {0,2,5}, their part id relative to the primary part and their side in output order, plus the caller's object in the primary part: TLC checks on every configuration that the code's estimate (non-primary size + caller end) bounds the true distance to any target placed before the primary part and that a target farther than the real range is never declared in range, rejects estimates that count only smaller-id or only larger-id parts, and produces the counterexample for targets placed after the primary part; all 81 size vectors are replayed (1 unit = 1 MiB) into the real compute_non_primary_text_size and the real output-order computation (ids, sides, and N >= bytes really before the primary part). Real AArch64 links with callers and callees more than 128 MiB apart (callee in the primary part, in a 4 MiB custom-named executable section, in .init, in a 64-byte aligned .text part, in a 64 KiB custom section, and in an alignment-1 .text part behind the primary part, the caller's object ending 125 MiB into the primary part so that only a correct count of the non-primary bytes asks for the thunk) are decoded statically and every labelled branch must reach its symbol directly or through an adrp/add/br thunk.",
-    "level_note": "The end-to-end part is exploration (ten scenarios, seven of them in quick; no execution: no qemu); PLT/IFUNC targets are only covered as a size class of the estimate (no dynamic or IFUNC symbol is linked), callers in non-primary parts only by one thorough scenario (over-aligned caller) and not by the model (thunks.rs assumes the non-primary code fits within the range); provably_in_range itself is a closure and is not called in-process: its fallback is modelled (src_end < R) and exercised only through real links; thunk-block sizes are taken as 0 in the model (the slack is assumed to cover them); the model is scaled (R = 8/12, slack 2), the real functions are replayed with the same scaled numbers (assign_thunk_blocks) or at 1 unit = 1 MiB (compute_non_primary_text_size) and, per scenario, with the real ones.",
+    "level_text": "Thunks.tla models assign_thunk_blocks step by step; TLC explores every sequence of up to 5 (quick) / 6-7 (thorough) objects over sizes 1..5 with a scaled range and checks block structure, that far pairs always get a thunk symbol, and reachability of the block from every site when objects are no longer than the slack; every explored run (thousands) is replayed into the real function with the same numbers and must give the identical (block, owner) assignment. ThunksParts.tla models the executable image as four classes of non-primary parts (.plt.got; .init/.fini/custom-named; over-aligned .text; low-alignment .text) with sizes {0,2,5}, their part id relative to the primary part and their side in output order, plus the caller's object in the primary part: TLC checks on every configuration that the code's estimate (non-primary size + caller end) bounds the true distance to any target placed before the primary part and that a target farther than the real range is never declared in range, rejects estimates that count only smaller-id or only larger-id parts, and produces the counterexample for targets placed after the primary part; all 81 size vectors are replayed (1 unit = 1 MiB) into the real compute_non_primary_text_size and the real output-order computation (ids, sides, and N >= bytes really before the primary part). Real AArch64 links with callers and callees more than 128 MiB apart (callee in the primary part, in a 4 MiB custom-named executable section, in .init/.fini (thorough), in a 64-byte aligned .text part, in a 64 KiB custom section, and in an alignment-1 .text part behind the primary part, the caller's object ending 125 MiB into the primary part so that only a correct count of the non-primary bytes asks for the thunk) are decoded statically and every labelled branch must reach its symbol directly or through an adrp/add/br thunk.",
+    "level_note": "The end-to-end part is exploration (ten scenarios, six of them in quick; no execution: no qemu); PLT/IFUNC targets are only covered as a size class of the estimate (no dynamic or IFUNC symbol is linked), callers in non-primary parts only by one thorough scenario (over-aligned caller) and not by the model (thunks.rs assumes the non-primary code fits within the range); provably_in_range itself is a closure and is not called in-process: its fallback is modelled (src_end < R) and exercised only through real links; thunk-block sizes are taken as 0 in the model (the slack is assumed to cover them); the model is scaled (R = 8/12, slack 2), the real functions are replayed with the same scaled numbers (assign_thunk_blocks) or at 1 unit = 1 MiB (compute_non_primary_text_size) and, per scenario, with the real ones.",
     "engine": "tlc",
 }
 EXPECTED_ACTIONS = ["First", "AssignPrev", "OpenNext", "AssignNext", "PlaceNext", "Finish"]
@@ -446,12 +446,12 @@ def run(ctx):
     build_wild()
     # ld.lld (about 20 s per link) is the decoder's sanity oracle on the first scenario; the others are only
     # linked by wild in the quick tier (thorough: every scenario is also linked by ld.lld)
-    names = ["far-call-forward", "large-object-after-caller", "custom-exec-target", "init-target",
+    names = ["far-call-forward", "large-object-after-caller", "custom-exec-target",
              "overaligned-text-target", "small-custom-control", "target-after-primary"]
     with_lld = {"far-call-forward"}
     if not ctx.quick:
         names[1:1] = ["far-call-backward", "non-primary-caller"]
-        names.append("fini-target")
+        names += ["init-target", "fini-target"]
         with_lld = set(names)
     for n in names:
         info = run_scenario(ctx, n, cov, report, use_lld=n in with_lld)
